@@ -63,6 +63,8 @@ def run(ctx):
     # remapping insertions of SlidingBoundariesArchive and ProximityArchive with local competition
     ctx.explore("sliding-remaps", archdispatch.gen_sliding, run_case, ctx.n(80, 6000), time_budget=budget)
     ctx.explore("proximity-lc", archdispatch.gen_prox(lc=True), run_case, ctx.n(80, 6000), time_budget=budget)
+    # a user subclass overriding the documented routing hook `index_of`: every entry point must go through it
+    ctx.explore("hooks", archlib.gen_hooks, run_case, ctx.n(60, 3000), time_budget=budget)
 
 
 def replay(ctx, case):
